@@ -50,6 +50,10 @@ async fn start_incarnation(w: &World) -> Option<Inc> {
     let meta: Arc<dyn MetadataClient> = Arc::new(ObjectStoreMetadataClient::new(store.clone(), ObjectStoreMetadataConfig::default()));
     let mut ing = Ingester::new(w.cfg.clone(), store, meta, StorageConfig::default(), MetricSchema::default_metrics());
     let my_inc = sim::inc(0);
+    if my_inc > 0 {
+        // (in power-loss runs) whatever the dead incarnation wrote to WAL segments without syncing is gone
+        disk::apply_power_loss();
+    }
     sim::log(format!("START ingester incarnation {my_inc}"));
     // recovery may itself flush, fail, or die
     let h = tokio::spawn(async move {
@@ -199,8 +203,12 @@ fn scen(spec: RunSpec) -> ScenFut {
             });
         }
         let ending_b = sim::w_bool(50);
+        // a third of the runs use power-loss semantics for the WAL segments: bytes written but not yet synced do
+        // not survive a crash (the property's precondition is a sync on every write)
+        let power_loss = sim::w(3) == 2;
+        disk::with(|d| d.power_loss = power_loss);
         sim::log(format!(
-            "CONFIG variant={} profile={profile} writers={writers} flush_rows={} flush_interval={:?} segment={} post_gates={post} ending={}",
+            "CONFIG variant={} profile={profile} writers={writers} flush_rows={} flush_interval={:?} segment={} post_gates={post} power_loss={power_loss} ending={}",
             spec.variant,
             cfg.flush_row_count,
             cfg.flush_interval,
